@@ -102,7 +102,8 @@ Section Partition.
     exists vs. split; [exact Hrs|]. split; [symmetry; eapply forall2_length; exact HF|].
     destruct (compile_s_inv env T ds ss ckss Hcs) as [Hc _].
     pose proof (compile_no_conflict env T ds ckss Hc) as Hnc.
-    pose proof (has_plain_false ds Hp) as Hnp.
+    pose proof (has_plain_false ds Hp) as Hnp. unfold no_plain in Hnp.
+    pose proof (proj1 (Forall_forall _ _) Hnp) as Hnp'.
     intros i d vi from to q Hd Hvi Hm Hpre.
     pose proof (forall2_nth _ _ _ _ _ _ HF Hd Hvi) as [Hget _].
     destruct (prefix_split _ _ Hpre) as [r Hq]. subst q.
@@ -114,8 +115,8 @@ Section Partition.
       2:{ apply nth_error_None in Hdj. assert (nth_error vs j <> None) by (rewrite Hvj; discriminate).
           apply nth_error_Some in H. lia. }
       pose proof (forall2_nth _ _ _ _ _ _ HF Hdj Hvj) as [_ Hzero].
-      assert (Hdm : d_maps d <> []) by (rewrite Forall_forall in Hnp; apply Hnp; eapply nth_error_In; eauto).
-      assert (Hdjm : d_maps dj <> []) by (rewrite Forall_forall in Hnp; apply Hnp; eapply nth_error_In; eauto).
+      assert (Hdm : d_maps d <> []) by (apply Hnp'; eapply nth_error_In; eauto).
+      assert (Hdjm : d_maps dj <> []) by (apply Hnp'; eapply nth_error_In; eauto).
       assert (Hfresh : fresh_for (to ++ r) (map snd (d_maps dj))).
       { intros tj Htj. destruct (conflict (to ++ r) tj) eqn:Ec; [|reflexivity].
         apply (conflict_above to) in Ec; [|apply prefix_app].
@@ -125,5 +126,64 @@ Section Partition.
       apply Hzero; [|exact Hfresh|exact Hz].
       intro Hnil. destruct (d_maps dj) as [|[fj tj] ms] eqn:Em; [contradiction|].
       specialize (Hfresh tj (or_introl eq_refl)). rewrite Hnil in Hfresh. rewrite conflict_nil_l in Hfresh. discriminate.
+  Qed.
+
+  (* ... and with static values: they arrive as one more chunk, which carries exactly the
+     static slots *)
+  Theorem stream_partition_s : forall ds ss ckss srcs v,
+    compile_s env T ds ss = CAccept ckss -> has_plain ds = false -> ss <> [] ->
+    Forall2 (fun d s => has_type env (d_ty d) s = true) ds srcs ->
+    run_invoke_s env T ds ss ckss srcs = Ok v ->
+    exists vs vst, run_stream_s env T ds ss ckss (map (fun s => [s]) srcs) = Ok (vs ++ [vst]) /\
+      List.length vs = List.length ds /\
+      (* a mapped slot: the static chunk reads zero there *)
+      (forall i d from to q z, nth_error ds i = Some d -> In (from, to) (d_maps d) -> prefix to q = true ->
+         take_path env vst q = Ok z -> exists st b, extract_ty env T q = SOk st b /\ z = zero st) /\
+      (* a static slot: the static chunk reads what the Invoke value reads, every other chunk zero *)
+      (forall to x q, In (to, x) ss -> prefix to q = true ->
+         take_path env vst q = take_path env v q /\
+         forall j vj z, nth_error vs j = Some vj -> take_path env vj q = Ok z ->
+                        exists st b, extract_ty env T q = SOk st b /\ z = zero st).
+  Proof.
+    intros ds ss ckss srcs v Hcs Hp Hss Ht Hinv.
+    destruct (stream_agrees_s env T ds ss ckss srcs v Hcs Hp Ht Hinv) as [vs [Hrs [HF Hst]]].
+    destruct ss as [|s0 ss0]; [contradiction|].
+    destruct Hst as [vst [Hrun [Hsget Hszero]]].
+    exists vs, vst. split; [exact Hrun|]. split; [symmetry; eapply forall2_length; exact HF|].
+    destruct (compile_s_inv env T ds (s0 :: ss0) ckss Hcs) as [Hc [Hs|[Hnc _]]]; [discriminate|].
+    apply no_conflict_app in Hnc. destruct Hnc as [_ [_ Hcross]].
+    pose proof (has_plain_false ds Hp) as Hnp. unfold no_plain in Hnp.
+    pose proof (proj1 (Forall_forall _ _) Hnp) as Hnp'.
+    assert (Hin_targets : forall i d from to, nth_error ds i = Some d -> In (from, to) (d_maps d) -> In to (all_targets ds)).
+    { intros i d from to Hd Hm. unfold all_targets. apply in_concat. exists (decl_paths d).
+      split; [apply in_map; eapply nth_error_In; eauto|].
+      rewrite decl_paths_maps by (apply Hnp'; eapply nth_error_In; eauto). apply (in_map snd _ (from, to)). exact Hm. }
+    split.
+    - intros i d from to q z Hd Hm Hpre Hz. destruct (prefix_split _ _ Hpre) as [r Hq]. subst q.
+      assert (Hfresh : fresh_for (to ++ r) (map fst (s0 :: ss0))).
+      { intros sp Hsp. destruct (conflict (to ++ r) sp) eqn:Ec; [|reflexivity].
+        apply (conflict_above to) in Ec; [|apply prefix_app].
+        rewrite (Hcross to sp (Hin_targets i d from to Hd Hm) Hsp) in Ec. discriminate. }
+      apply Hszero; [|exact Hfresh|exact Hz].
+      intro Hnil. specialize (Hfresh (fst s0) (or_introl eq_refl)). rewrite Hnil in Hfresh.
+      rewrite conflict_nil_l in Hfresh. discriminate.
+    - intros to x q Hin Hpre. destruct (prefix_split _ _ Hpre) as [r Hq]. subst q. split.
+      + rewrite !take_path_app. rewrite (Hsget to x Hin). reflexivity.
+      + intros j vj z Hvj Hz.
+        assert (Hlen : List.length ds = List.length vs) by (eapply forall2_length; exact HF).
+        destruct (nth_error ds j) as [dj|] eqn:Hdj.
+        2:{ apply nth_error_None in Hdj. assert (nth_error vs j <> None) by (rewrite Hvj; discriminate).
+            apply nth_error_Some in H. lia. }
+        pose proof (forall2_nth _ _ _ _ _ _ HF Hdj Hvj) as [_ Hzero].
+        assert (Hdjm : d_maps dj <> []) by (apply Hnp'; eapply nth_error_In; eauto).
+        assert (Hfresh : fresh_for (to ++ r) (map snd (d_maps dj))).
+        { intros tj Htj. destruct (conflict (to ++ r) tj) eqn:Ec; [|reflexivity].
+          apply (conflict_above to) in Ec; [|apply prefix_app].
+          apply in_map_iff in Htj. destruct Htj as [[fj tj'] [Etj Hmj]]. simpl in Etj. subst tj'.
+          rewrite conflict_sym in Ec.
+          rewrite (Hcross tj to (Hin_targets j dj fj tj Hdj Hmj) (in_map fst _ (to, x) Hin)) in Ec. discriminate. }
+        apply Hzero; [|exact Hfresh|exact Hz].
+        intro Hnil. destruct (d_maps dj) as [|[fj tj] ms] eqn:Em; [contradiction|].
+        specialize (Hfresh tj (or_introl eq_refl)). rewrite Hnil in Hfresh. rewrite conflict_nil_l in Hfresh. discriminate.
   Qed.
 End Partition.
